@@ -69,9 +69,12 @@ Section Expected.
   Variable a : ast.
   Variables sn n1 n2 : name.          (* the names of ^, ~ and ^~ *)
 
-  (* Eco with %implicit_tokens: the tokens in the constructor's iteration order *)
+  (* Eco with %implicit_tokens: the implicit tokens in token (= first occurrence) order *)
   Definition eco_implicit : option (list name) :=
-    match a_kind a with KEco => a_implicit a | _ => None end.
+    match a_kind a with
+    | KEco => option_map (fun keys => filter (fun t => mem t keys) (a_tokens a)) (a_implicit a)
+    | _ => None
+    end.
 
   Definition n_src : nat := length (a_prods a).
   Definition off : nat := match eco_implicit with Some _ => 3 | None => 1 end.
@@ -196,10 +199,7 @@ Record obj_in_range (g : grammar_obj) : Prop := mkInRange {
       defined (token_span g t) /\ defined (avoid_insert g t);
   ir_rule_idx : forall n r, rule_idx g n = Some r -> r < rules_len g;
   ir_token_idx : forall n t, token_idx g n = Some t -> t < tokens_len g;
-  ir_tokens_map : forall n t, In (n, t) (tokens_map g) -> t < tokens_len g;
-  (* rules and productions partition each other *)
-  ir_partition : forall p r, p < prods_len g -> r < rules_len g ->
-      (prod_to_rule g p = Done r <-> exists ps, rule_to_prods g r = Done ps /\ In p ps)
+  ir_tokens_map : forall n t, In (n, t) (tokens_map g) -> t < tokens_len g
 }.
 
 (* ---- statements ---------------------------------------------------------------- *)
